@@ -3,7 +3,7 @@ import Verif.Model.AcmeAuth
   Line-protocol driver for C12 (ACME request authentication / replay / confinement).
 
   `req`  — one request against the world as the harness observed it just before sending:
-    req m=POST p=x<hex chi pattern>
+    req v=2 m=POST p=x<hex chi pattern>
         pid= pname= pknown= url= ct=0..3 cpath= parsed= fresh= tgt= tgt2= plok= deact= only= ckey= csame=        (request)
         ns= ue= ac=rsa|eced|other alg= es= short= jwk=-|isRsa.bytes.valid.thumb.alg
         kid= kb= kpre= nonce= jurl=!|n ver=-|thumb:pRSB,… pe=                                   (parsed JWS)
@@ -14,7 +14,7 @@ import Verif.Model.AcmeAuth
       verdict = ok | <status>:<problem type> | crash | no-such-route
 
   `route` — what the (pasted / regenerated) table says about a route of the real router:
-    route m=POST p=x<hex pattern>
+    route v=2 m=POST p=x<hex pattern>
     Output: sel=jwk|kid|either pag=0|1 parse=1 validate=1 verify=1 nonce=1   (or `none` / `unguarded`)
 -/
 open Verif Verif.AcmeAuth
@@ -151,8 +151,14 @@ def evalRoute (kv : List (String × String)) : Option String := do
       let pag := if rt.chain.contains .isPostAsGet then 1 else 0
       pure s!"sel={sel} pag={pag} parse=1 validate=1 verify=1 nonce=1"
 
+/-- version of the line protocol this driver speaks; the harness sends `v=<its version>` on every
+    line. A mismatch means driver and harness come from different revisions of /verif: it is
+    reported as such, never as a verdict. -/
+def protocolVersion : String := "2"
+
 def eval (line : String) : Option String :=
   let kv := kvs line
+  if lookup kv "v" ≠ some protocolVersion then some "protocol-mismatch" else
   match (fields line).head? with
   | some "req" => evalReq kv
   | some "route" => evalRoute kv
